@@ -39,6 +39,10 @@ type NodeCfg struct {
 	FastSync bool
 	Out      func(owner, remote int, ch byte, msg []byte) bool
 	TxPool   tx_pool.TxPoolConfig
+	// TxGossip registers peers with the real tx-pool reactor. Off by default: its broadcast
+	// picks a random subset of peers (map order) and the pool hands pending transactions to
+	// the proposer in map order over senders, which no seed controls.
+	TxGossip bool
 }
 
 // SavedBlock is what a node handed to its block store.
@@ -321,7 +325,7 @@ func (n *Node) Connect(remote int) *SimPeer {
 	_ = n.Switch.VerifAddPeer(p)
 	// The tx-pool and evidence reactors run their real per-peer routines: they
 	// talk only through peer.Send, i.e. through the simulated network.
-	if n.TxR.IsRunning() {
+	if n.TxR.IsRunning() && n.Cfg.TxGossip {
 		n.TxR.AddPeer(p)
 	}
 	if n.EvR.IsRunning() {
